@@ -45,6 +45,9 @@ pub struct PaseResponder<'a, C: Crypto> {
     crypto: C,
     notify: &'a dyn AttrChangeNotifier,
     spake2p: Spake2P,
+    /// The commissioning window (identified by its mDNS instance id) whose verifier
+    /// the PASEPake1 of the handshake in progress was answered with.
+    comm_window_id: Option<u64>,
 }
 
 impl<'a, C: Crypto> PaseResponder<'a, C> {
@@ -55,6 +58,7 @@ impl<'a, C: Crypto> PaseResponder<'a, C> {
             crypto,
             notify,
             spake2p: Spake2P::new(),
+            comm_window_id: None,
         }
     }
 
@@ -63,6 +67,7 @@ impl<'a, C: Crypto> PaseResponder<'a, C> {
             crypto,
             notify,
             spake2p <- Spake2P::init(),
+            comm_window_id: None,
         })
     }
 
@@ -317,6 +322,8 @@ impl<'a, C: Crypto> PaseResponder<'a, C> {
                         &mut cb,
                     )?;
 
+                    self.comm_window_id = Some(comm_window.mdns_id);
+
                     Ok(true)
                 } else {
                     Ok(false)
@@ -360,6 +367,32 @@ impl<'a, C: Crypto> PaseResponder<'a, C> {
         let req = get_root_node_struct(exchange.rx()?.payload())?;
         let pake3 = Pake3::from_tlv(&req)?;
         let ca: HmacHashRef<'_> = pake3.ca.0.try_into()?;
+
+        // A PASE session must come into existence only while the commissioning window
+        // whose verifier this handshake runs against is (still) open: the window might
+        // have been revoked, have expired, or have been replaced by another one since
+        // PASEPake1. Re-check it - as for PBKDFParamRequest and PASEPake1 - before the
+        // session is created, and silently drop the message otherwise.
+        let comm_window_id = self.comm_window_id.take();
+
+        let notify_mdns = || exchange.matter().transport().notify_mdns_changed();
+        let notify_change =
+            |endpt_id, cluster_id| self.notify.notify_cluster_changed(endpt_id, cluster_id);
+
+        let has_comm_window = exchange.with_state(|state| {
+            state
+                .pase
+                .check_comm_window_timeout(notify_mdns, notify_change)?;
+
+            Ok(comm_window_id.is_some()
+                && state.pase.comm_window().map(|comm_window| comm_window.mdns_id)
+                    == comm_window_id)
+        })?;
+
+        if !has_comm_window {
+            debug!("Dropping PASEPake3: the commissioning window is no longer open");
+            return Ok(true);
+        }
 
         let verify_result = self.spake2p.verify(ca);
         let success = verify_result.is_ok();
